@@ -18,7 +18,7 @@ META = dict(
     level="exploration",
     technique="model-based scenario testing (Hypothesis scenarios + complete short scenarios) of LoopingCall on a harness-owned task.Clock against an exact integer boundary model",
     level_text="Random scenarios (interval 1..64 ticks of 1/16 s, start offset, now/withCount flags, per-call behaviours, up to 60 operations) and every scenario of a small scope (2 intervals x now x withCount x 25 behaviour pairs x all operation sequences of length <= 3 (quick) / <= 5 (thorough) over 7 letters) are executed on the real LoopingCall; every invocation, every rescheduling observed through Clock.getDelayedCalls(), every count and the start() Deferred are compared with the model. Exploration, not proof.",
-    level_note="task.Clock is the trusted clock (its own behaviour is C09). Times are multiples of 1/16 s so float arithmetic in _scheduleFrom/_intervalOf is exact. interval 0, restarting a stopped loop, and count accounting after reset() are outside the statement and not generated/asserted. A reset() while the function's Deferred is outstanding is accepted with either base (old start or reset time). stop()/reset() are only issued while the model says the loop is running (otherwise LoopingCall asserts).",
+    level_note="task.Clock is the trusted clock (its own behaviour is C09). Times are multiples of 1/16 s so float arithmetic in _scheduleFrom/_intervalOf is exact. interval 0 and restarting a stopped loop are outside the statement and not generated. Counts are checked call by call: the count must equal the number of grid boundaries in (previous invocation, now]; across a reset() with a call pending (which re-anchors the grid at the reset time, per its docstring) the part before the reset may be read as old-grid boundaries crossed or as whole intervals elapsed, both accepted, nothing else. A reset() while the function's Deferred is outstanding is not defined by the statement or the docs (the current code ignores it; re-anchoring at the reset time is an equally coherent reading of 'reset the timer'): either base is accepted, but all later calls must stay on the ONE grid the implementation chose, and only the first count after a re-anchoring/ambiguous in-flight reset is left unconstrained. stop()/reset() are only issued while the model says the loop is running (otherwise LoopingCall asserts).",
     design_ref="§5 C10",
     rule="case = (interval, t0, now, withCount, behaviours, operations). Non-trivial = at least one advance that spans >= 2 intervals while the loop is running and at least one call completed through a Deferred fired later; distinct by the whole case.",
 )
@@ -47,8 +47,15 @@ class _Run:
         self.in_f = False
         self.in_start = False
         self.cands = None            # set of acceptable scheduled times, None = nothing scheduled
-        self.sum_counts = 0
-        self.sums_valid = True
+        # count accounting (withCount), per invocation:
+        self.cnt_prev = None         # time of the previous invocation (start() time before the first one)
+        self.cnt_mark = None         # lower end of the current grid segment since cnt_prev
+        self.cnt_carry = 0           # grid boundaries crossed between cnt_prev and the last reset, grid by grid
+        self.cnt_resets = 0          # reset()s with a pending call since cnt_prev
+        self.cnt_last_r = None
+        self.cnt_free = False        # next count unconstrained (in-flight reset re-anchored / ambiguous)
+        self.amb = False             # in-flight reset not yet resolved
+        self.amb_old = ()
         self.ncalls = 0
         self.call_times = []
         self.cur = None              # behaviour record of the in-flight call
@@ -65,6 +72,10 @@ class _Run:
         self.f_reset = False
         self.f_fail = False
         self.f_skip = False
+        self.f_offgrid_reset = False
+        self.f_inflight_offgrid = False
+        self.f_inflight_offgrid_resolved = False
+        self.f_inflight_offgrid_then_call = False
 
     def bad(self, sig, detail):
         self.ctx.violation(sig, self.case, detail)
@@ -91,6 +102,7 @@ class _Run:
         self.lc.clock = self.K
         self.start = t0
         self.bases = [t0]
+        self.cnt_prev = self.cnt_mark = t0
         self.running = True
         self.in_start = True
         if not self.now_flag:
@@ -149,18 +161,14 @@ class _Run:
                 self.f_boundary_hit = True
         self.cands = None
         self.call_times.append(t)
+        if self.f_inflight_offgrid_resolved:
+            self.f_inflight_offgrid_then_call = True
         if self.with_count:
             if type(count) is not int or count < 1:
                 self.bad("count-not-positive-int", f"call {n}: count={count!r}")
             if count > 1:
                 self.f_skip = True
-            self.sum_counts += count
-            if self.sums_valid:
-                want = (t - self.start) // self.I + (1 if self.now_flag else 0)
-                if self.sum_counts != want:
-                    self.bad("count-sum",
-                             f"call {n} at {t * TICK}: counts so far sum to {self.sum_counts}, boundaries elapsed {want} "
-                             f"(start {self.start * TICK}, interval {self.I * TICK}, now={self.now_flag})")
+            self.check_count(n, t, count)
         elif count is not None:
             self.bad("plain-call-got-argument", repr(count))
         kind, arg, pre = self.beh[n] if n < len(self.beh) else ("ret", 0, "")
@@ -211,9 +219,64 @@ class _Run:
             self.complete(False, e)
             d.errback(e)
 
+    def check_count(self, n, t, count):
+        """'The counts passed sum to the number of boundaries elapsed', call by
+        call: the count must be the number of grid boundaries in
+        (previous invocation, now].  Across a reset() with a pending call the
+        grid is re-anchored; what elapsed before the reset may be read as grid
+        boundaries crossed (carry) or as whole intervals elapsed (xf) — both are
+        accepted, nothing else."""
+        I = self.I
+        if n == 0 and self.now_flag:
+            if count != 1:
+                self.bad("count-sum", f"immediate first call got count {count}, want 1")
+        elif self.cnt_free:
+            self.ctx.count("withCount call unconstrained after in-flight reset")
+        elif self.cnt_resets == 0:
+            b = self.bases[0]
+            want = (t - b) // I - (self.cnt_prev - b) // I
+            if count != want:
+                self.bad("count-sum",
+                         f"call {n} at {t * TICK}: count {count}, but {want} boundaries of the grid "
+                         f"{b * TICK} + k*{I * TICK} lie in ({self.cnt_prev * TICK}, {t * TICK}]")
+        else:
+            r = self.cnt_last_r
+            b_new = (t - r) // I
+            xf = (r - self.cnt_prev) // I
+            lo = b_new + min(xf, self.cnt_carry)
+            hi = b_new + max(xf, self.cnt_carry)
+            self.ctx.count("withCount call after reset with pending call")
+            if self.f_offgrid_reset:
+                self.ctx.count("withCount call after off-grid reset with pending call")
+            if not lo <= count <= hi:
+                self.bad("count-after-reset",
+                         f"call {n} at {t * TICK}: count {count}; previous invocation at {self.cnt_prev * TICK}, "
+                         f"reset at {r * TICK} (interval {I * TICK}): {b_new} boundaries since the reset plus "
+                         f"{min(xf, self.cnt_carry)}..{max(xf, self.cnt_carry)} before it")
+        self.cnt_prev = self.cnt_mark = t
+        self.cnt_carry = 0
+        self.cnt_resets = 0
+        self.cnt_free = False
+        self.f_offgrid_reset = False
+
+    def note_pending_reset(self):
+        """reset() with a call pending at self.now: the grid is re-anchored here."""
+        r = self.now
+        b = self.bases[0]
+        self.cnt_carry += (r - b) // self.I - (self.cnt_mark - b) // self.I
+        if (r - b) % self.I:
+            self.f_offgrid_reset = True
+        self.cnt_mark = r
+        self.cnt_last_r = r
+        self.cnt_resets += 1
+
     def note_inflight_reset(self):
         self.f_reset = True
-        self.sums_valid = False
+        if not self.amb:
+            self.amb = True
+            self.amb_old = tuple(self.bases)
+        if all((self.now - b) % self.I for b in self.bases):
+            self.f_inflight_offgrid = True
         if self.now not in self.bases:
             self.bases.append(self.now)
 
@@ -259,6 +322,18 @@ class _Run:
                 if keep:
                     self.bases = keep
                 self.cands = {c}
+            if self.amb:
+                # the in-flight reset is resolved now: either it left the grid
+                # alone (then counts are fully determined) or the implementation
+                # re-anchored / the two grids coincide (next count unconstrained)
+                self.amb = False
+                if set(self.bases) <= set(self.amb_old):
+                    self.ctx.count("in-flight reset resolved: grid unchanged")
+                else:
+                    self.cnt_free = True
+                    self.ctx.count("in-flight reset resolved: re-anchored or coinciding grids")
+                if self.f_inflight_offgrid:
+                    self.f_inflight_offgrid_resolved = True
             if not self.lc.running:
                 self.bad("running-flag-false-while-scheduled", where)
         else:
@@ -320,7 +395,7 @@ class _Run:
             if self.cands is not None:
                 self.lc.reset()
                 self.f_reset = True
-                self.sums_valid = False
+                self.note_pending_reset()
                 self.bases = [self.now]
                 self.cands = {self.now + self.I}
             else:
@@ -374,6 +449,7 @@ def run_case(ctx, case):
                         (r.f_boundary_hit, "scenario: call exactly on its boundary"),
                         (r.f_stop_inflight, "scenario: stop while call unfinished"),
                         (r.f_reset, "scenario: reset"),
+                        (r.f_inflight_offgrid_then_call, "scenario: off-grid reset while call unfinished, later call observed"),
                         (r.f_fail, "scenario: failure ends the loop"),
                         (r.f_skip, "scenario: count > 1 passed"),
                         (r.with_count, "scenario: withCount"),
